@@ -60,6 +60,7 @@ type live struct {
 	cmds      sync.Map                                              // *service.ActiveMessage -> caller id
 	readHold  func(c int, m *service.Message)                       // optional: runs inside the read callback
 	replyHold func(c int, serial int)                               // optional: runs at W.reply.before
+	writeHold atomic.Pointer[func(c int)]                           // optional: runs inside the write callback (holds the writer)
 }
 
 type liveEventer struct {
@@ -99,6 +100,9 @@ func (e *liveEventer) OnWriteExecutionEvent(msg service.Message) {
 	e.l.rec.log(e.idx, "W", "writecb", "data", append(B{}, msg.ExtensionFields.PlatformData...), "active", msg.ExtensionFields.ActiveSend,
 		"pseq", int(msg.ExtensionFields.PlatformSeq), "cmd", int(msg.ExtensionFields.PlatformCommand), "err", errs,
 		"tserial", int(msg.ExtensionFields.TerminalSeq))
+	if h := e.l.writeHold.Load(); h != nil {
+		(*h)(e.idx)
+	}
 }
 
 func errKind(err error) string {
